@@ -33,6 +33,8 @@ pub struct Config {
     pub chain_map: Vec<(String, String)>,
     /// R-strslice: `&X[a..]` => vx_str_from(X, a)  (only in units where every such X is a str)
     pub str_slice: bool,
+    /// R-iter: `X.iter().all(f)` / `.any(f)` => vx_slice_all(X.as_slice(), f) / vx_slice_any(..)
+    pub iter_rules: bool,
 }
 
 impl Config {
@@ -78,6 +80,7 @@ impl Config {
             c.keep_derives_struct = a.iter().map(|v| v.as_str().unwrap().to_string()).collect();
         }
         c.str_slice = u["str_slice"].as_bool().unwrap_or(false);
+        c.iter_rules = u["iter_rules"].as_bool().unwrap_or(false);
         c.keep_derives = match u["keep_derives"].as_array() {
             Some(a) => a.iter().map(|v| v.as_str().unwrap().to_string()).collect(),
             None => vec!["Clone".into(), "Copy".into(), "PartialEq".into(), "Eq".into()],
@@ -492,6 +495,27 @@ impl<'a> VisitMut for Rewriter<'a> {
             }
             if let Some(n) = rep {
                 fire(self.fired, "R-strslice");
+                *e = n;
+            }
+        }
+        // R-iter
+        if self.cfg.iter_rules {
+            let mut rep: Option<Expr> = None;
+            if let Expr::MethodCall(mc) = e {
+                let m = mc.method.to_string();
+                if (m == "all" || m == "any") && mc.args.len() == 1 {
+                    if let Expr::MethodCall(inner) = &*mc.receiver {
+                        if inner.method == "iter" && inner.args.is_empty() {
+                            let x = &inner.receiver;
+                            let f = &mc.args[0];
+                            let target = syn::Ident::new(&format!("vx_slice_{}", m), Span::call_site());
+                            rep = Some(parse_quote!(#target((#x).as_slice(), #f)));
+                        }
+                    }
+                }
+            }
+            if let Some(n) = rep {
+                fire(self.fired, "R-iter");
                 *e = n;
             }
         }
